@@ -104,32 +104,35 @@ Definition rep_snext (a : G) (lo : nat) (hi : option nat) (ctx : val) (c : nat) 
   | None => None
   end.
 
+(* the item part of a separated_by step; [p] is the position before the separator,
+   [ps, es] the position and emissions after the (optional) separator *)
+Definition sep_sitem (a : G) (lo : nat) (trail : bool) (ctx : val) (c : nat) (p : nat)
+           (ps : nat) (es : list lerr) (r0 : reg) : option (snext * nat * reg) :=
+  match run a ctx ps r0 with
+  | Some (Some (v, p1, e1), r1) => Some (SSome v p1 (es ++ e1), S c, r1)
+  | Some (None, r1) =>
+      if Nat.ltb c lo then Some (SErr, c, r1)
+      else if trail then Some (SNone ps es, c, r1)     (* the separator stays consumed *)
+      else Some (SNone p [], c, r1)
+  | None => None
+  end.
+
 Definition sep_snext (a sep : G) (lo : nat) (hi : option nat) (lead trail : bool) (ctx : val)
            (c : nat) (p : nat) (r : reg) : option (snext * nat * reg) :=
   if at_cap c hi then Some (SNone p [], c, r) else
-  (* [ps, es]: position and emissions after the (optional) separator *)
-  let item (ps : nat) (es : list lerr) (r0 : reg) : option (snext * nat * reg) :=
-    match run a ctx ps r0 with
-    | Some (Some (v, p1, e1), r1) => Some (SSome v p1 (es ++ e1), S c, r1)
-    | Some (None, r1) =>
-        if Nat.ltb c lo then Some (SErr, c, r1)
-        else if trail then Some (SNone ps es, c, r1)     (* the separator stays consumed *)
-        else Some (SNone p [], c, r1)
-    | None => None
-    end in
   if andb (Nat.eqb c 0) lead then
     match run sep ctx p r with
-    | Some (Some (_, p1, e1), r1) => item p1 e1 r1
-    | Some (None, r1) => item p [] r1
+    | Some (Some (_, p1, e1), r1) => sep_sitem a lo trail ctx c p p1 e1 r1
+    | Some (None, r1) => sep_sitem a lo trail ctx c p p [] r1
     | None => None
     end
   else if Nat.ltb 0 c then
     match run sep ctx p r with
-    | Some (Some (_, p1, e1), r1) => item p1 e1 r1
+    | Some (Some (_, p1, e1), r1) => sep_sitem a lo trail ctx c p p1 e1 r1
     | Some (None, r1) => if Nat.ltb c lo then Some (SErr, c, r1) else Some (SNone p [], c, r1)
     | None => None
     end
-  else item p [] r.
+  else sep_sitem a lo trail ctx c p p [] r.
 
 Fixpoint it_snext (i : IT) (ctx : val) (its : itst) (p : nat) (r : reg) : option (snext * itst * reg) :=
   match i, its with
